@@ -128,10 +128,11 @@ class TriggerHandler:
         installed = {}
         for trigger in self._tp_config:
             for action in trigger.actions:
-                installed.setdefault((action.id, action.action_type), action)
+                installed.setdefault((trigger.id, action.id, action.action_type), action)
         for trigger in new_config:
             for action in trigger.actions:
-                old = installed.get((action.id, action.action_type))
+                # (the same tracepoint at the same location: one that was moved to another line starts afresh)
+                old = installed.get((trigger.id, action.id, action.action_type))
                 if old is not None and old is not action and old == action:
                     action.keep_stats_of(old)
         self._tp_config = new_config
